@@ -2206,6 +2206,58 @@ key_unbalanced(rkey *k, int pbits, int qbits, unsigned long e, vf_rng *r)
 	key_finish(k);
 }
 
+/* keys whose reduced private exponents are much shorter than their factors: a prime f = (e+1)/2 mod e gives
+ * d mod (f-1) = (2f-1)/e, about log2(e)-1 bits shorter than f (15 bits for e = 65537, 31 bits for e = 2^32-5): the
+ * encoded dp / dq then fills fewer words than the factor in every implementation. which: 1 = p, 2 = q, 3 = both */
+static void
+det_prime_short(BIGNUM *p, int bits, vf_rng *r, const BIGNUM *e)
+{
+	unsigned char buf[128];
+	BIGNUM *t = BN_new(), *g = BN_new(), *res = BN_new(), *e2 = BN_new();
+	size_t n = (size_t)(bits + 7) / 8;
+	BN_add(res, e, BN_value_one()); BN_rshift1(res, res);     /* (e+1)/2 */
+	BN_lshift1(e2, e);
+	for (;;) {
+		vf_bytes(r, buf, n);
+		BN_bin2bn(buf, (int)n, p);
+		BN_mask_bits(p, bits);
+		BN_set_bit(p, bits - 1); BN_set_bit(p, bits - 2);
+		BN_mod(t, p, e, bnctx); BN_sub(p, p, t); BN_add(p, p, res);
+		if (!BN_is_odd(p)) BN_add(p, p, e);
+		for (;;) {
+			if (BN_num_bits(p) != bits) break;
+			/* (3 mod 4: what br_rsa_compute_pubexp asks of the factors) */
+			if (BN_is_bit_set(p, 1) && BN_check_prime(p, bnctx, NULL) == 1) {
+				BN_sub(t, p, BN_value_one());
+				BN_gcd(g, t, e, bnctx);
+				if (BN_is_one(g)) { BN_free(t); BN_free(g); BN_free(res); BN_free(e2); return; }
+			}
+			BN_add(p, p, e2);
+		}
+	}
+}
+
+static void
+key_short_crt(rkey *k, int bits, unsigned long e, int which, vf_rng *r)
+{
+	BIGNUM *p1 = BN_new(), *q1 = BN_new(), *phi = BN_new();
+	memset(k, 0, sizeof *k);
+	k->e = BN_new(); BN_set_word(k->e, e);
+	k->p = BN_new(); k->q = BN_new(); k->n = BN_new(); k->d = BN_new(); k->dp = BN_new(); k->dq = BN_new(); k->iq = BN_new();
+	if (which & 1) det_prime_short(k->p, bits, r, k->e); else do { det_prime(k->p, bits, r, k->e); } while (!BN_is_bit_set(k->p, 1));
+	do { if (which & 2) det_prime_short(k->q, bits, r, k->e); else det_prime(k->q, bits, r, k->e); } while (BN_cmp(k->p, k->q) == 0 || !BN_is_bit_set(k->q, 1));
+	BN_mul(k->n, k->p, k->q, bnctx);
+	BN_sub(p1, k->p, BN_value_one()); BN_sub(q1, k->q, BN_value_one());
+	BN_mul(phi, p1, q1, bnctx);
+	if (!BN_mod_inverse(k->d, k->e, phi, bnctx)) HARNESS_FAIL("short-crt-d");
+	BN_mod(k->dp, k->d, p1, bnctx); BN_mod(k->dq, k->d, q1, bnctx);
+	if (((which & 1) && BN_num_bits(k->dp) > bits - 14) || ((which & 2) && BN_num_bits(k->dq) > bits - 14)) HARNESS_FAIL("short-crt-not-short");
+	if (!BN_mod_inverse(k->iq, k->q, k->p, bnctx)) HARNESS_FAIL("short-crt-iq");
+	snprintf(k->name, sizeof k->name, "s%d_e%lu_w%d", bits, e, which);
+	BN_free(p1); BN_free(q1); BN_free(phi);
+	key_finish(k);
+}
+
 /* ------------------------------------------------------------------ */
 /* Section LIMITS: factors / moduli at and beyond the documented size limits
    (bearssl_rsa.h: "the maximum modulus size is 4096 bits, and the maximum prime
@@ -2499,6 +2551,14 @@ main(int argc, char **argv)
 			static const int nl[10] = { 45, 46, 57, 58, 61, 62, 77, 78, 93, 94 };
 			for (q = 0; q < 10 && nkeys < MAXKEYS; q ++) key_unbalanced(&KEYS[nkeys ++], 4 * nl[q], 4 * nl[q], 65537, &kr);
 		}
+	}
+	{
+		vf_rng kr;
+		vf_rng_init(&kr, 0x5eed, 4343);
+		if (nkeys < MAXKEYS) key_short_crt(&KEYS[nkeys ++], 512, 65537, 2, &kr);
+		if (nkeys < MAXKEYS) key_short_crt(&KEYS[nkeys ++], 520, 65537, 3, &kr);
+		if (nkeys < MAXKEYS) key_short_crt(&KEYS[nkeys ++], 512, 4294967291ul, 1, &kr);
+		if (nkeys < MAXKEYS) key_short_crt(&KEYS[nkeys ++], 768, 4294967291ul, 3, &kr);
 	}
 	qsort(KEYS, (size_t)nkeys, sizeof KEYS[0], keycmp);
 
